@@ -89,6 +89,49 @@ func init() {
 	}
 }
 
+func init() {
+	// many hashes alive at once: hash i is fed the data rotated by i in two writes, and as many
+	// further hashes are created and fed in between (instances must not share state)
+	extraOps["crcmany"] = func(a []string) string {
+		n, err := strconv.Atoi(a[0])
+		data, err2 := hex.DecodeString(a[1])
+		if err != nil || err2 != nil || n < 0 || n > 5000 {
+			return "bad-arg"
+		}
+		l := len(data)
+		rot := func(i int) []byte {
+			k := 0
+			if l > 0 {
+				k = i % l
+			}
+			return append(append([]byte{}, data[k:]...), data[:k]...)
+		}
+		hs := make([]dyncrc16.Hash16, n)
+		for i := range hs {
+			hs[i] = dyncrc16.New()
+			hs[i].Write(rot(i)[:l/2])
+		}
+		for i := 0; i < n; i++ {
+			x := dyncrc16.New()
+			x.Write([]byte{byte(i), 0xA5, byte(i >> 8)})
+		}
+		var sb strings.Builder
+		for i := range hs {
+			hs[i].Write(rot(i)[l/2:])
+			fmt.Fprintf(&sb, "%04x", hs[i].Sum16())
+		}
+		return sb.String()
+	}
+}
+
+func genCrcMany(r *rng, n int) CaseSet {
+	cs := CaseSet{Name: "crc-many-live-hashes"}
+	for i := 0; i < n; i++ {
+		cs.Cases = append(cs.Cases, fmt.Sprintf("crcmany %d %s", []int{2, 17, 255, 256, 257, 300, 600, 1025}[i%8], hex.EncodeToString(r.bytes(2+r.intn(40)))))
+	}
+	return cs
+}
+
 func genCrcRows() CaseSet {
 	cs := CaseSet{Name: "crc-all-transitions"}
 	for s := 0; s < 65536; s++ {
